@@ -4,7 +4,7 @@ import PyatvModel.C18.Model
 Line protocol (C18):
   run  <script> <env> <fault>   → `<outcome> <ledger> <points>`
   held <script> <env> <k>       → `<ledger>` of the call parked in fault point k, or `end`
-  script  = connect:<csv protocol indices|-> | stream:<volKnown><metaGiven> | play:<local>
+  script  = connect:<csv protocol indices|-> | stream:<volKnown><metaGiven><airplay2> | play:<local>
             (prefix `orig-` selects the pre-repair scripts)
   env     = csv of resource names | -          fault = - | <k>:fail | <k>:cancel
   outcome = ok | fail | cancel | refused       ledger = sorted csv of resource names | -
@@ -25,6 +25,9 @@ def Res.ofStr? (s : String) : Option Res :=
   | "server" => some .server
   | "playConn" => some .playConn
   | "playTask" => some .playTask
+  | "eventch" => some .eventch
+  | "fbtask" => some .fbtask
+  | "audiosock" => some .audiosock
   | _ =>
     match suffixNat? "conn" s, suffixNat? "task" s, suffixNat? "takeover" s with
     | some p, _, _ => some (.conn p)
@@ -50,7 +53,12 @@ def parseScript? (s : String) : Option Prog :=
     | [v, m] => do
       let v ← bit? v
       let m ← bit? m
-      pure (if orig then Orig.streamFile v m else streamFile v m)
+      if orig then pure (Orig.streamFile v m) else none
+    | [v, m, p] => do
+      let v ← bit? v
+      let m ← bit? m
+      let p ← bit? p
+      if orig then none else pure (streamFile v m p)
     | _ => none
   | ["play", f] =>
     match f.toList with
